@@ -316,6 +316,21 @@ func VerifC20Query() {
 			vsym.Assert(res.Contains(uint32(c)) == vsym.And(e, vsym.Or(v == v1, v == v2)), "batch-equal")
 		}
 		vCheckBSI(b, m, "index-after-batch-equal")
+		if vsym.Param("full") == 1 {
+			// every value of the width is asked for: the result is "all columns"; it must still be the caller's own bitmap
+			all := make([]int64, 0, 1<<uint(w))
+			for v := int64(0); v < int64(1)<<uint(w); v++ {
+				all = append(all, v)
+			}
+			res2 := b.BatchEqual(par, all)
+			for _, c := range cols {
+				_, e := m.get(c)
+				vsym.Assert(res2.Contains(uint32(c)) == e, "batch-equal")
+			}
+			res2.Remove(uint32(cols[0]))
+			res2.Add(uint32(cols[2] + 7))
+			vCheckBSI(b, m, "index-after-batch-equal")
+		}
 	case 5:
 		tr := b.Transpose()
 		it := b.IntersectAndTranspose(par, b.GetExistenceBitmap())
